@@ -95,6 +95,7 @@ func domValset(env *Env) error {
 	maxEpochs := env.Int("epochs", 12)
 	rng := NewRNG(env.Report.Seed)
 	env.Report.Domain = "valset"
+	scenarioGenesisZeroPower(env) // dom_valset_genesis.go (no op lines: InitChain is outside the model)
 	for hi := 0; hi < n; hi++ {
 		cfg := DefaultCfg(env.Report.Seed*1000 + uint64(hi))
 		nGen := rng.Range(1, 5)
